@@ -210,6 +210,32 @@ func init() {
 		return out
 	}, fsm.EncodeUpsertChannelLatestBatchCommandChecked, fsmOne[[]fsm.ChannelLatestBatchItem])
 
+	// declared maxima of subscriber commands: MaxSubscriberCommandUIDs = 1000 uids, MaxSubscriberCommandUIDBytes = 64 KiB
+	uidsN := func(n int) []string {
+		out := make([]string, n)
+		for i := range out {
+			out[i] = fmt.Sprintf("u%06d", i)
+		}
+		return out
+	}
+	subBounds := []c27Bound{
+		{name: "uids", max: fsm.MaxSubscriberCommandUIDs, build: func(f *c27Filler, n int) any { return fsmSubs{"c", 2, uidsN(n), 1} }},
+		{name: "uid.bytes", max: fsm.MaxSubscriberCommandUIDBytes, build: func(f *c27Filler, n int) any {
+			// two uids joined by one separator: total encoded size exactly n
+			a := make([]byte, n/2)
+			b := make([]byte, n-n/2-1)
+			for i := range a {
+				a[i] = 'a'
+			}
+			for i := range b {
+				b[i] = 'b'
+			}
+			return fsmSubs{"c", 2, []string{string(a), string(b)}, 0}
+		}},
+	}
+	c27Codecs["fsm.add_subscribers"].bounds = subBounds
+	c27Codecs["fsm.remove_subscribers"].bounds = subBounds
+
 	// apply-result codecs
 	c27Reg(&c27Codec{name: "fsm.subscriber_mutation_result", selfDelim: true, canon: true,
 		gen: func(f *c27Filler) any {
